@@ -13,14 +13,16 @@
                                  yields: 65535 / 512 (capped by the buffer), or over UDP the CLASS of a
                                  processed OPT clamped to [512, server size]
      c04_udp_response_size       the two sides composed for UDP
+     c04_udp_identical_when_fits_partial   clause (iii) for answers that end Ok: if the finished TCP message
+                                 fits the UDP space, the UDP response is octet-identical (through
+                                 c04_writer_limit_monotone and a relational lifting over the query model)
    What is NOT proved and is decided per case by the extracted oracle [pair_check] (Spec/RespS.v) on
-   the real server's two responses to every generated request: clauses (iii) "whenever the TCP
-   response fits in the UDP limit the UDP response is identical" and (iv) "otherwise a TC-clear UDP
-   response differs only by omitted optional additional records, never by in-bailiwick glue"
-   (they need a limit-monotonicity theorem of the Writer, which C12 does not have), and the size/TC
-   clauses on the finished octets.  c04_oracle_* say what a verdict PairOk means. *)
+   the real server's two responses to every generated request: clause (iii) for answers that end in
+   SERVFAIL (false there: finding C04-1), clause (iv) "otherwise a TC-clear UDP response differs only
+   by omitted optional additional records, never by in-bailiwick glue", and the size/TC clauses on
+   the finished octets.  c04_oracle_* say what a verdict PairOk means. *)
 From QV Require Import Base.Res Base.Octets Model.MsgWriter Model.ZoneTree Model.Query Model.QueryW
-  Proofs.MsgWriterInvP Proofs.QueryWP Proofs.ServerLimitP Spec.MsgWriterS Spec.RespS.
+  Proofs.MsgWriterInvP Proofs.QueryWP Proofs.ServerLimitP Proofs.WriterMonoP Proofs.QueryMonoP Spec.MsgWriterS Spec.RespS.
 From QV Require Model.Server Spec.NameRepr.
 
 Theorem c04_response_within_limit : forall negttl buf tcp id rd qname qtype qclass edns limit z len b,
@@ -81,6 +83,28 @@ Proof.
     assert (H512 : N.to_nat 512 <= Server.w_limit w) by (rewrite L; apply Nat.min_glb; lia).
     specialize (B3 eq_refl ltac:(discriminate) H512). rewrite L in B3. etransitivity; [exact B3|apply Nat.le_min_l].
 Qed.
+
+(* Clause (iii), PARTIAL: for answers that END Ok with every Writer operation succeeding on the TCP side
+   ([w_strict]: the octet-level interface with failures turned into panics, so that an Ok run is a run
+   without any failed operation): if the finished message fits the space the UDP writer has, the UDP
+   response is the TCP response, octet for octet.  Not covered: answers that end in SERVFAIL after
+   partial writes (there the statement is false: finding C04-1) and clause (iv). *)
+Theorem c04_udp_identical_when_fits_partial : forall negttl buf id rd qname qtype qclass edns limit z wt wu wt' len b,
+  prepare_w buf true id rd qname qtype qclass edns limit = Some wt ->
+  prepare_w buf false id rd qname qtype qclass edns limit = Some wu ->
+  (if (qtype =? QTYPE_ANY)%N then answer_any w_strict negttl z qname wt else answer w_strict negttl z qname qtype wt) = Ok (tt, wt') ->
+  finish wt' = Ok (len, b) -> w_tsig wt' = None -> w_cursor wt' <= w_avail wt' ->
+  w_cursor wt' <= w_avail wu -> len <= w_avail wu + (if w_edns wt' then opt_record_size else 0) ->
+  respond_w negttl buf true id rd qname qtype qclass edns limit z = Some (len, b) /\
+  respond_w negttl buf false id rd qname qtype qclass edns limit z = Some (len, b).
+Proof. exact respond_udp_identical. Qed.
+
+(* its Writer-level core: an add_*_rr / add_*_rrset that succeeds with final cursor c succeeds identically
+   (same result, same octets, same compression decisions) under any limit / available space a >= c *)
+Theorem c04_writer_limit_monotone : forall l a s h owner ty cl ttl,
+  (forall rd v, mono l a (add_section_rr s h owner ty cl ttl rd v)) /\
+  (forall rds v, mono l a (add_section_rrset s h owner ty cl ttl rds v)).
+Proof. intros. split; intros; [apply mono_section_rr|apply mono_section_rrset]. Qed.
 
 (* what the oracle's verdict means *)
 Lemma label_eqb_eq : forall a b, label_eqb a b = true -> a = b.
@@ -144,9 +168,34 @@ Proof.
   vm_compute. repeat split.
 Qed.
 
+(* Non-vacuity of c04_udp_identical_when_fits_partial: the zone of c04_example, question b.a. TXT with an OPT
+   (server size 1232, negotiated limit 1232): every hypothesis holds, the response is 671 octets on both transports. *)
+Example c04_identical_example :
+  let a := [97%N] in let big := [98%N] in
+  let soa := [0; 0; 0;0;0;1; 0;0;0;2; 0;0;0;3; 0;0;0;4; 0;0;0;60]%N in
+  let txt := fun c : N => (200 :: repeat c 200)%N in
+  let recs := [mk_record [a] 6 1 3600 soa; mk_record [big; a] 16 1 300 (txt 120%N);
+               mk_record [big; a] 16 1 300 (txt 121%N); mk_record [big; a] 16 1 300 (txt 122%N)] in
+  let buf := repeat 0%N 1300 in
+  exists z wt wu wt' len b,
+    zone_build req_simple (zone_new [a] 1 false) recs = Some z /\
+    prepare_w buf true 7 false [big; a] 16 1 (Some 1232%N) 1232 = Some wt /\
+    prepare_w buf false 7 false [big; a] 16 1 (Some 1232%N) 1232 = Some wu /\
+    answer w_strict neg_ttl z [big; a] 16 wt = Ok (tt, wt') /\ finish wt' = Ok (len, b) /\
+    w_tsig wt' = None /\ w_cursor wt' <= w_avail wt' /\ w_cursor wt' <= w_avail wu /\
+    len <= w_avail wu + (if w_edns wt' then opt_record_size else 0) /\ len = 671.
+Proof.
+  cbv zeta. do 6 eexists.
+  split; [vm_compute; reflexivity|]. split; [vm_compute; reflexivity|]. split; [vm_compute; reflexivity|].
+  split; [vm_compute; reflexivity|]. split; [vm_compute; reflexivity|]. split; [reflexivity|].
+  vm_compute. repeat split; repeat constructor.
+Qed.
+
 Print Assumptions c04_response_within_limit.
 Print Assumptions c04_tc_shape.
 Print Assumptions c04_limit_value.
 Print Assumptions c04_udp_response_size.
+Print Assumptions c04_udp_identical_when_fits_partial.
+Print Assumptions c04_writer_limit_monotone.
 Print Assumptions c04_oracle_tc_shape.
 Print Assumptions c04_oracle_sizes_and_identity.
